@@ -173,4 +173,22 @@ PROPS = {
         "assumptions": COMMON_ASSUME + ["a handled signal is modelled by its only observable effect on a blocked call: EINTR (or, for clock_nanosleep, the returned error number and the remaining time)",
                                         "after EINTR on connect only the sequences Linux produces for a non-blocking connect are offered (EALREADY, then 0)"],
     },
+    "C18": {
+        "harness": "nomem",
+        "variants": ["A.c11.posix", "A.c11.general"],
+        "quick_s": 10, "thorough_s": 180,
+        "level": "fault_enumeration",
+        "rule": ("one evaluation = one (scenario, k, mode) triple: one of 17 allocating scenarios (list; hash table; BST/RB/AVL tree; string; error; 11 crypto hashes; INI "
+                 "file; directory; socket address; TCP socket pair; semaphore + shm + shm buffer; mutex/cond/rwlock/spinlock; thread + TLS; library loader; time profiler) "
+                 "is first run without faults to count its N allocations, then re-run with allocation k (uniform in 1..N) failing once or from k onwards; oracle: no crash or "
+                 "sanitizer report, documented failure value, objects that existed before unchanged, outstanding-block set / descriptors / mappings / IPC names back at the "
+                 "baseline after clean-up; distinct = distinct (scenario, k, mode, schedule) hash; non-trivial = an allocation really failed"),
+        "probes": ["nomem.allocation_failed", "alloc.failed_second_or_later_in_scenario", "nomem.loader_loaded"] + ["nomem." + n for n in
+                   ["list", "hash_table", "tree_bst", "tree_rb", "tree_avl", "string", "error", "crypto_hashes", "ini_file", "dir", "socket_address", "socket", "ipc", "locks",
+                    "threads_tls", "library_loader", "time_profiler"]],
+        "components": {"real": ["every module of the library (containers, string, error, hashes, INI, dir, socket address, socket, IPC, locks, threads, loader, profiler)"],
+                       "stub": ["allocator (p_mem_set_vtable): the fault source"] + STUB_KERNEL + STUB_NET + STUB_PTHREAD + ["fopen/opendir/dlopen: real, counted"]},
+        "assumptions": COMMON_ASSUME + ["scenarios are representative call sequences per allocating entry point, not all programs",
+                                        "k is sampled uniformly per scenario; with >1e5 runs per check every (scenario, k, mode) triple is hit many times (coverage reported through probes)"],
+    },
 }
